@@ -27,7 +27,7 @@ gvars == <<vars, hist, finished, coin>>
 \* of an endpoint update are drawn with RandomElement (TLC's seeded generator) instead of being enumerated.
 ObsSw(sw) == [in |-> sw.in, cfg |-> sw.cfg, nil |-> sw.nil, eps |-> Live(sw)]
 ObsTab(t) == [s \in Svcs |-> ObsSw(t[s])]
-ObsProcs(p) == [s \in Svcs |-> [on |-> p[s].on, cfg |-> p[s].cfg, hosts |-> p[s].hosts]]
+ObsProcs(p) == [s \in Keys |-> [on |-> p[s].on, cfg |-> p[s].cfg, hosts |-> p[s].hosts]]
 ObsEvt(e, t) == [t |-> e.t, s |-> e.s, cfg |-> e.cfg, eps |-> View(e, t), add |-> e.add, rem |-> e.rem]
 NoEvt == [t |-> "", s |-> "", cfg |-> "", eps |-> <<>>, add |-> {}, rem |-> {}]
 
